@@ -209,7 +209,8 @@ def L4(ctx: Ctx) -> RuleResult:
     r = RuleResult('L4', 'DataType.union == fold of | over all elements starting from the empty set')
     fi = ctx.model.method('DataType', 'union', 'L4')
     types = Sym('types')
-    outs = ctx.ev.run(fi, {'types': types})
+    from .terms import Evaluator, helper_inline
+    outs = Evaluator(ctx.model, inline=helper_inline(('hpl.types',), exclude=('union',))).run(fi, {'types': types})
     rets = [o for o in outs if o.kind == 'return']
     if len(outs) != 1 or len(rets) != 1:
         for o in outs:
@@ -253,8 +254,10 @@ def L4(ctx: Ctx) -> RuleResult:
     if acc is None:
         r.fail('DataType.union:return', f'returns {o.value!r}, not the accumulator of the fold', fi.where)
         return r
-    # initial value: find in source the reaching definition before the loop
-    init = _initial_value(ctx, fi, acc)
+    # initial value: the accumulator on entry to the loop (wherever the loop sits after looking through helpers)
+    init = dict(lp.inits).get(acc)
+    if init is None:
+        init = _initial_value(ctx, fi, acc)
     fs = flagset(ctx, init) if init is not None else None
     if fs is None:
         raise AnalysisError('L4', f'cannot fold initial accumulator value {init!r}')
